@@ -150,7 +150,7 @@ def growth_jobs(ctx: Ctx, rng):
         for j in range(1 if q else 2):
             m, code = FIN_COMBOS[(n + 3 * j) % len(FIN_COMBOS)]
             jobs.append(("shape", {"init": c["init"], "ops": c["ops"], "method": m, "code": code, "ncb": (n + j) % 2}))
-    for _ in range(1500 if q else 40000):
+    for _ in range(1500 if q else 20000):
         jobs.append(("shape", R.rand_shape_case(rng)))
     for spec in R.exception_specs(rng, 6 if q else 80):
         jobs.append(("exc", spec))
